@@ -22,14 +22,14 @@ run_demo() {
   if [ -z "$(for f in $demo_names; do case "$f" in tests/*.rs) echo x;; esac; done)" ]; then
     out=$(cargo test --offline $FEAT --lib 2>&1 | cat)
   fi
-  echo "$out" | grep -c '^error' > "$S/.last_errors"
+  echo "$out" | grep -c '^error\[E\|^error: could not compile' > "$S/.last_errors"
   echo "$out" | grep -q 'test result: FAILED\|error\[' && echo FAIL || { echo "$out" | grep -q 'test result: ok' && echo PASS || echo UNKNOWN; }
 }
 git apply "$D/patch.diff" || { echo "CONFIRM $D patch-does-not-apply"; exit 4; }
 # (the crate is compiled with default features by the suite run and with all features by the
 # demonstration run; their compiler errors are the two build_errors numbers)
 suite_out=$(cargo test --workspace --no-fail-fast --offline 2>&1 | cat)
-b1=$(echo "$suite_out" | grep -c '^error')
+b1=$(echo "$suite_out" | grep -c '^error\[E\|^error: could not compile')
 suite=$(echo "$suite_out" | grep '^test result' | head -1)
 git apply "$D/demo.diff" || { echo "CONFIRM $D demo-does-not-apply"; exit 5; }
 with=$(run_demo)
